@@ -67,6 +67,12 @@ CHECKS = [
           "map is maintained from hand-over/return events and every history ends by draining all consumers. Worker level: 2-3 workers on one "
           "queue, each succeeding job executed exactly once. Statistical over histories and latency vectors.",
   "note": _MODEL + _SRV + " Open known finding D24 (Redis maintenance reclaims messages of live consumers after the execution timeout) is excluded by signature."},
+ {"property_id": "C15", "level": "exploration", "design_ref": "DESIGN.md §4 C15",
+  "technique": "model-based property-based testing of delivery order (single consumer, single priority) with drain / continuous-backlog / reject-and-reawait histories, 3 brokers",
+  "text": "Order oracle over the event stream (enqueue, deliver, return): no never-returned message overtakes an earlier-enqueued waiting "
+          "one; a returned message precedes everything enqueued after its return; nothing matching starves while the consumer polls; "
+          "queue lengths cross Redis's fetch window of 10; a spinning broker call (step watchdog) is reported.",
+  "note": _MODEL + _SRV + " Open known finding D20 (RabbitMQ foreign-topic head-of-line blocking under a small prefetch limit) is excluded by signature."},
  {"property_id": "C19", "level": "exploration", "design_ref": "DESIGN.md §4 C19",
   "technique": "property-based testing (Hypothesis) of pure functions against arithmetic oracles under a pinned clock",
   "text": "Generated search (tens of thousands of inputs per run, boundary classes constructed on purpose: exact period multiples ±1µs, "
